@@ -7,9 +7,9 @@ marshalling (Box::new/into_raw/from_raw, pointer casts, the opaque-manager cast)
 compares it with the table row.  A wrapper missing from the table, or a row without a
 wrapper, is a checker error (fail closed), not a verdict.
 """
-from . import mir
+from . import mir, canon
 from .base import (inst, OK, VIOLATION, UNDECIDED, P, C, F, K, ANY, Agg, Contains, match, strip,
-                   callee_is, fn_key)
+                   callee_is, fn_key, verdict_of, errtext)
 from .facts import CheckerError
 from .mir import show
 
@@ -19,6 +19,7 @@ BDD = "repr::bdd::BddPtr"
 DD = "repr::ddnnf::DDNNFPtr"
 WP = "repr::wmc::WmcParams"
 VL = C("repr::var_label::VarLabel::new", P(2))
+PAYLOAD = P(99)   # in an `opt` row: the value carried by Some(..) of the row's scrutinee
 
 # name -> dict(ret=pattern | None, effect=pattern | None, defaults=[patterns], closure=pattern)
 TABLE = {
@@ -31,7 +32,7 @@ TABLE = {
         ret=C("FiniteField::value",
               C(DD + "::unsmoothed_wmc",
                 C(ROB + "::smooth", P(1), P(2), C(ROB + "::num_vars", P(1))), ANY())),
-        closure=Agg("tuple", C("VarLabel::new", P(2)), Agg("tuple", C("Semiring::one"), C("Semiring::one")))),
+        entries=(C("VarLabel::new", ANY()), Agg("tuple", C("Semiring::one"), C("Semiring::one")))),
     "mk_bdd_manager_default_order": dict(ret=C(ROB + "::new", C("VarOrder::linear_order", P(1)))),
     "bdd_new_label": dict(ret=C("VarLabel::value", C(ROB + "::new_label", P(1)))),
     "bdd_var": dict(ret=C(B + "::var", P(1), VL, P(3))),
@@ -45,14 +46,14 @@ TABLE = {
     "bdd_is_false": dict(ret=C(DD + "::is_false", P(1))),
     "bdd_is_const": dict(ret=C(BDD + "::is_const", P(1))),
     "bdd_count_nodes": dict(ret=C(DD + "::count_nodes", P(1))),
-    "bdd_scratch": dict(ret=C("Option::unwrap_or", C(BDD + "::scratch", P(1)), P(2))),
+    "bdd_scratch": dict(opt=(C(BDD + "::scratch", P(1)), P(2), PAYLOAD)),
     "bdd_set_scratch": dict(effect=C(BDD + "::set_scratch", P(1), P(2))),
     "bdd_clear_scratch": dict(effect=C(BDD + "::clear_scratch", P(1))),
     "bdd_true": dict(ret=C(B + "::true_ptr", P(1))),
     "bdd_false": dict(ret=C(B + "::false_ptr", P(1))),
     "bdd_eq": dict(ret=C(B + "::eq", P(1), P(2), P(3), comm=True)),
     "free_bdd_manager": dict(effect=C("std::mem::drop", P(1))),
-    "bdd_topvar": dict(topvar=True),
+    "bdd_topvar": dict(opt=(C(BDD + "::var_safe", P(1)), ANY(), C("VarLabel::value", PAYLOAD))),
     "bdd_low": dict(ret=C(BDD + "::low", P(1))),
     "bdd_high": dict(ret=C(BDD + "::high", P(1))),
     "print_bdd": dict(ret=C("Result::unwrap", C("CString::new", C(BDD + "::print_bdd", P(1))))),
@@ -110,8 +111,7 @@ TABLE = {
     "var_order_new": dict(ret=C("VarOrder::new", C("from_raw_parts", P(1), P(2)))),
     # ---- dtree.rs / vtree.rs
     "dtree_from_cnf": dict(ret=C("DTree::from_cnf", P(1), P(2))),
-    "vtree_from_dtree": dict(ret=C("Option::map_or", C("from_dtree", P(1)), C("null_mut"), ANY()),
-                             closure=P(2)),
+    "vtree_from_dtree": dict(opt=(C("from_dtree", P(1)), C("null_mut"), PAYLOAD)),
 }
 
 FLOOR = 65
@@ -176,32 +176,45 @@ def run(prog):
     if missing or extra:
         raise CheckerError("WF table out of date: rows without wrapper %s, wrappers without row %s"
                            % (missing, extra))
+    named = _named_in_table()
+
+    def helper_ok(h):
+        # private helpers of the ffi modules that no table row names: pure plumbing, looked through
+        return "ffi::" in h.npath and h.name not in wrappers and h.name not in named and "{closure" not in h.npath
+
+    def norm(t):
+        return norm_term(canon.inline_local(prog, norm_term(t), helper_ok))
+
     for name, fn in sorted(wrappers.items()):
         spec = TABLE[name]
         te = fn.terms
         errs = []
         detail = ""
-        if spec.get("topvar"):
-            # bdd_topvar: Some(x) -> x.value(), None -> 0  of var_safe(*bdd)
-            t = norm_term(te.ret)
-            ok = False
-            if isinstance(t, tuple) and t[0] == "gamma":
-                c = t[1]
-                if c[0] == "discr" and match(C(BDD + "::var_safe", P(1)), c[1]) is None:
-                    arms = dict(t[2])
-                    vm = te._discr_variants.get(("discr", c[1])) or {}
-                    some = [l for l in arms if vm.get(l) == "Some"]
-                    if some:
-                        v = arms[some[0]]
-                        if isinstance(v, tuple) and v[0] == "call" and v[1].name == "value":
-                            inner = v[2][0]
-                            if inner[0] == "field" and inner[1][0] == "as" and inner[1][2] == "Some":
-                                ok = True
-            if not ok:
-                errs.append("expected `match var_safe(*bdd) {Some(x) => x.value(), None => _}`, found %s" % show(t))
-            detail = "bdd_topvar = value of var_safe(arg1)"
+        if "opt" in spec:
+            # an Option elimination, in whichever spelling (match / map_or / unwrap_or ..)
+            sp, np_, so = spec["opt"]
+            oe = canon.opt_elim(prog, te, te.ret) or canon.opt_elim(prog, te, norm(te.ret))
+            if oe is None:
+                r = norm(te.ret)
+                if not any(match(sp, x) is None for x in mir.subterms(r)):
+                    errs.append("the result %s does not depend on %r" % (show(r)[:80], sp))
+                else:
+                    errs.append("?the result is not an elimination of an Option: %s" % show(te.ret)[:100])
+            else:
+                o, nv, sv = oe
+                e = match(sp, norm(o))
+                if e:
+                    errs.append("scrutinee: " + e)
+                e = match(np_, norm(nv))
+                if e:
+                    errs.append("None case: " + e)
+                sv = _replace(sv, canon.payload(o), ("param", 99))
+                e = match(so, norm(sv))
+                if e:
+                    errs.append("Some case: " + e.replace("arg99", "the payload"))
+            detail = "match %r { None => %r, Some(payload) => %r }" % (sp, np_, so)
         if "ret" in spec:
-            t = norm_term(te.ret)
+            t = norm(te.ret)
             ls = leaves(t)
             main = 0
             for leaf in ls:
@@ -244,6 +257,8 @@ def run(prog):
                     ok = True
             if not ok:
                 errs.append("expected an empty weight table, found %s" % show(inner))
+        if "entries" in spec:
+            errs += table_entries(prog, fn, spec["entries"])
         if "closure" in spec:
             kids = prog.children(fn)
             if len(kids) != 1:
@@ -255,11 +270,69 @@ def run(prog):
         if spec.get("bounded_copy"):
             errs += bounded_copy(fn)
         # parameters must not be mentioned by any other native (crate-local) call
-        verdict = VIOLATION if errs else OK
-        out.append(inst("WF", "%s" % name, verdict, fn, None,
-                        ("; ".join(errs)) if errs else detail))
+        out.append(inst("WF", "%s" % name, verdict_of(errs), fn, None, errtext(errs) if errs else detail))
     out += from_c_parts_rule(prog)
     return out
+
+
+def _named_in_table():
+    names = set()
+
+    def go(p):
+        if isinstance(p, C):
+            names.add(p.spec.rsplit("::", 1)[-1])
+            for a in p.args:
+                go(a)
+        elif isinstance(p, F):
+            go(p.sub)
+        elif isinstance(p, Agg):
+            for a in p.ops:
+                go(a)
+        elif isinstance(p, (tuple, list)):
+            for a in p:
+                go(a)
+    for row in TABLE.values():
+        for v in row.values():
+            go(v)
+    return names
+
+
+def _replace(t, old, new):
+    if t == old:
+        return new
+    if not isinstance(t, tuple) or not t:
+        return t
+    if t[0] == "call":
+        return (t[0], t[1], tuple(_replace(a, old, new) for a in t[2])) + tuple(t[3:])
+    return tuple(_replace(a, old, new) if isinstance(a, tuple) else a for a in t)
+
+
+def table_entries(prog, fn, spec):
+    """robdd_model_count: every (key, value) put into the weight table is (VarLabel::new(counter), (one, one)),
+    whether the table is collected from a mapped range or filled by inserts in a counting loop"""
+    keyp, valp = spec
+    te = fn.terms
+    pairs = []
+    for kid in prog.children(fn):
+        r = strip(kid.terms.ret) if kid.terms.ret is not None else None
+        if isinstance(r, tuple) and r and r[0] == "agg" and r[1] == "tuple" and len(r[4]) == 2:
+            pairs.append((r[4][0], r[4][1], "closure"))
+    for cs in te.calls:
+        if cs.callee.name == "insert" and "HashMap" in cs.callee.key() and len(cs.args) == 3:
+            pairs.append((cs.args[1], cs.args[2], "insert"))
+    if not pairs:
+        return ["?no (variable, weights) pair is built for the counting weights"]
+    errs = []
+    for k, v, how in pairs:
+        e = match(keyp, k) or match(valp, v)
+        if e:
+            errs.append("weight table entry (%s): %s" % (how, e))
+            continue
+        ctr = strip(strip(k)[2][0])
+        okc = ctr == ("param", 2) if how == "closure" else (isinstance(ctr, tuple) and ctr and ctr[0] == "mu")
+        if not okc:
+            errs.append("weight table entry (%s): the variable is %s, not the running index" % (how, show(ctr)[:60]))
+    return errs
 
 
 def _min_bound(t):
@@ -293,9 +366,49 @@ def bounded_copy(fn):
     return errs
 
 
+def _is_max(a):
+    a = strip(a)
+    return isinstance(a, tuple) and a and ((a[0] == "const" and a[2] == "32") or
+                                           (a[0] == "constitem" and a[1].endswith("MAX_COEFFS")))
+
+
+def bounded_by_max(t):
+    """t <= MAX_COEFFS by construction: min(.., MAX), MAX itself, or a choice every alternative of which is MAX or
+    a value chosen exactly when a comparison says it does not exceed MAX"""
+    t = strip(t)
+    if not isinstance(t, tuple) or not t:
+        return False
+    if _is_max(t):
+        return True
+    if t[0] == "call" and t[1].name == "min" and len(t[2]) == 2:
+        return any(_is_max(a) for a in t[2])
+    if t[0] == "gamma":
+        c = strip(t[1])
+        if not (isinstance(c, tuple) and c[0] == "bin" and c[1] in ("Lt", "Le", "Gt", "Ge")):
+            return False
+        op, a, b = c[1], strip(c[2]), strip(c[3])
+        for lab, v in t[2]:
+            v = strip(v)
+            if _is_max(v) or bounded_by_max(v):
+                continue
+            truth = 0 if lab == "0" else 1
+            # the comparison, with this truth value, must say v <= MAX
+            if _is_max(a) and v == b:        # MAX op v
+                ok = (op == "Lt" and truth == 0) or (op == "Ge" and truth == 1) or (op == "Gt" and truth == 1)
+            elif _is_max(b) and v == a:      # v op MAX
+                ok = (op == "Gt" and truth == 0) or (op == "Le" and truth == 1) or (op == "Lt" and truth == 1)
+            else:
+                ok = False
+            if not ok:
+                return False
+        return True
+    return False
+
+
 def from_c_parts_rule(prog):
-    """from_c_parts: every write to `coefficients[i]` iterates a slice whose length is
-    min(len, MAX_COEFFS); the recorded `len` is that same minimum."""
+    """from_c_parts: every write to `coefficients[i]` has i below a length that is at most MAX_COEFFS — the index
+    enumerates a slice of that length, or a dominating test compares it with that length; the slice read has that
+    same length."""
     out = []
     fns = prog.find(name="from_c_parts", path_contains="ffi::wmc")
     if len(fns) != 1:
@@ -308,28 +421,33 @@ def from_c_parts_rule(prog):
         errs.append("expected one from_raw_parts call")
     else:
         ln = frp[0].args[1]
-        mins = _min_bound(ln)
-        okb = False
-        for m in mins:
-            for a in m[2]:
-                if (a[0] == "const" and a[2] == "32") or (a[0] == "constitem" and a[1].endswith("MAX_COEFFS")):
-                    okb = True
-        if not okb:
+        if not (any(bounded_by_max(m) for m in _min_bound(ln)) or bounded_by_max(ln)):
             errs.append("slice length not bounded by MAX_COEFFS: %s" % show(ln))
     stores = [s for s in te.stores if "coefficients" in show(s[1])]
     if not stores:
         errs.append("no coefficient store found")
     for (bb, pt, val, line) in stores:
-        # index must come from iterating the bounded slice
         idx = pt[2] if pt[0] == "index" else None
-        src = []
+        ok = False
         if idx is not None:
+            # (a) the index is drawn from iterating the bounded slice
+            src = []
             for x in mir.subterms(idx):
                 if x[0] == "mutref":
                     for (h, l), init in te.mu_init.items():
                         if l == x[1]:
                             src.append(init)
-        if not src or not all(_min_bound(s) for s in src):
+            if src and all(_min_bound(s_) or any(bounded_by_max(y) for y in mir.subterms(s_)) for s_ in src):
+                ok = True
+            # (b) a dominating test says index < bounded length
+            for c, v, _, _ in te.facts_at(bb):
+                c = strip(c)
+                if isinstance(c, tuple) and c and c[0] == "bin" and v != "0":
+                    if c[1] == "Lt" and strip(c[2]) == strip(idx) and bounded_by_max(c[3]):
+                        ok = True
+                    if c[1] == "Gt" and strip(c[3]) == strip(idx) and bounded_by_max(c[2]):
+                        ok = True
+        if not ok:
             errs.append("line %d: index of coefficient write is not drawn from the bounded slice" % line)
     out.append(inst("WF", "from_c_parts:bounded-write", VIOLATION if errs else OK, fn, None,
                     "; ".join(errs) if errs else "coefficients[i] written only for i < min(len, MAX_COEFFS)"))
